@@ -420,7 +420,36 @@ type MessageBadEmbeddedString struct {
 
 func (*MessageBadEmbeddedString) GetID() uint32 { return 900028 }
 
+// arrays of arrays: MAVLink arrays have one dimension
+type MessageBadMatrix struct {
+	Seq    uint16
+	Matrix [2][3]uint8
+	Tail   uint8
+}
+
+func (*MessageBadMatrix) GetID() uint32 { return 900029 }
+
+type MessageBadCube struct {
+	Cube [2][2][2]float32
+}
+
+func (*MessageBadCube) GetID() uint32 { return 900030 }
+
+type MessageBadEnumMatrix struct {
+	A uint8
+	M [2][2]UEnum `mavenum:"uint8"`
+}
+
+func (*MessageBadEnumMatrix) GetID() uint32 { return 900031 }
+
+type MessageBadStringArray struct {
+	Names [3]string `mavlen:"4"`
+}
+
+func (*MessageBadStringArray) GetID() uint32 { return 900032 }
+
 var malformed = []message.Message{
+	&MessageBadMatrix{}, &MessageBadCube{}, &MessageBadEnumMatrix{}, &MessageBadStringArray{},
 	&MessageBadEmbeddedScalar{}, &MessageBadEmbeddedAlias{}, &MessageBadEmbeddedString{},
 	&MessageBadZeroLenString{}, &MessageBadNegativeLenString{}, &MessageBadEmptyLenTag{},
 	&MessageBadNamedScalar{}, &MessageBadNamedString{}, &MessageBadNamedArrayElem{}, &MessageBadEnumWithoutTag{},
